@@ -184,7 +184,12 @@ func cmdCheck(args []string) int {
 	}
 	work := filepath.Join(*verif, ".work", *prop)
 	os.MkdirAll(work, 0o755)
-	sv := &Solver{workDir: work, timeout: time.Duration(timeout) * time.Second, cacheDir: filepath.Join(*verif, ".work", "cache"), noCache: noCache}
+	sv := &Solver{workDir: work, timeout: time.Duration(timeout) * time.Second, cacheDir: filepath.Join(*verif, ".work", "cache"), noCache: noCache, retryFactor: 3, noRetry: map[string]bool{}}
+	for _, f := range loadFindings(filepath.Join(*verif, "known_findings.txt")) {
+		if f.Kind == "finding" {
+			sv.noRetry[f.Key] = true
+		}
+	}
 	rr := w.verifyCone(roots, lemmas, sv, false)
 
 	// ---- aggregate by key ----
